@@ -20,7 +20,7 @@ META = {
             'system-call granularity are executed for each call pattern and at each pattern boundary; the file must always be old content + a permutation of whole records.',
     'note': 'Trusted: one write(2)/writev(2) on an O_APPEND descriptor of a regular local file is atomic with respect to other appends (POSIX/Linux). Writers are processes; threads of one process are covered by C09\'s schedules.',
 }
-O_APPEND, O_TRUNC = 0o2000, 0o1000
+O_APPEND, O_TRUNC, O_NONBLOCK = 0o2000, 0o1000, 0o4000
 WRITES = ('write', 'writev', 'pwrite64', 'pwritev', 'sendto')
 
 
@@ -95,6 +95,8 @@ def run(ck):
                 bad.append('not_opened_for_appending')
             if fl & O_TRUNC:
                 bad.append('opened_with_O_TRUNC')
+            if fl & O_NONBLOCK:
+                bad.append('opened_non_blocking')     # on a tty or FIFO destination a non-blocking append may be cut short: not one indivisible append
         if len(writes) != 1:
             bad.append('record_leaves_in_%d_writes' % len(writes))
         elif writes[0].get('buf_len') != n + 1 or not writes[0].get('buf_ends_nl'):
